@@ -52,8 +52,13 @@ def gen_set(rng, slice_choices=(4, 8, 12, 64), maxfiles=5, big=False, kinds=None
         files[n] = L.gen_content(rng, kind, max(1, sz), S)
     np_ = nparity if nparity is not None else rng.choice([1, 2, 3, 3, 5, 8])
     ps = PSet(files, S, np_, g=rng.choice([1, 2, 3, 7]))
+    # beside the set: an unrelated file, a foreign .par2 in a sub-directory, a file outside the set directory, a
+    # SUB-DIRECTORY NAMED LIKE A RECOVERY FILE of this set (with a file inside), and a file one level deeper whose
+    # path has the set's prefix and suffix - the listing is that of ONE directory and takes files only
     ps.bystanders = {DIR + "/unrelated.txt": b"keep me", DIR + "/sub/other.par2": b"not a par2 file at all",
-                     "/w/outside.dat": b"outside"}
+                     "/w/outside.dat": b"outside",
+                     DIR + "/" + ps.base + ".dir.par2/inner.par2": b"PAR2\0PKT not a packet",
+                     DIR + "/" + ps.base + ".deeper/x.par2": b"PAR2\0PKT neither"}
     return ps
 
 
